@@ -1968,3 +1968,27 @@ Section Final.
     Forall (fun b => Forall (fun r => fr_enabled r = true) (fb_rules b)) (fe_blocks e2).
   Proof. destruct A as (A1 & A2 & A3 & A4 & A5). now apply (import_export_rules_enabled num fmt parse round close1 n_nan n_pinf n_ninf n_one n_zero A1 A4 d e). Qed.
 End Final.
+
+(* ================================================================================================ refutations at the three-number instance *)
+Lemma n3_export_normalize_fails :
+  export n3_fmt n3_close1 1 (normalize n3_round n3_close1 NB 1 n3_engine) <> export n3_fmt n3_close1 1 n3_engine.
+Proof. vm_compute. discriminate. Qed.
+Lemma n3_fixpoint_fails :
+  A_fmt n3_fmt n3_parse n3_round n3_close1 NB /\ wf n3_close1 n3_engine = true /\
+  exists e2, n3_import (n3_export n3_engine) = Ok e2 /\ n3_export e2 <> n3_export n3_engine.
+Proof.
+  split; [exact n3_A_fmt|]. split; [vm_compute; reflexivity|].
+  eexists. split; [vm_compute; reflexivity|]. vm_compute. discriminate.
+Qed.
+
+(* closed goals about concrete engines: Forall / conjunctions / the two cases of rep_h, by computation *)
+Ltac solve_concrete :=
+  vm_compute;
+  repeat match goal with
+         | |- Forall _ _ => constructor
+         | |- _ /\ _ => split
+         | |- _ \/ _ => first [left; reflexivity | right; split; reflexivity]
+         | |- True => exact I
+         | |- _ = _ => reflexivity
+         | |- _ -> _ => intros; try reflexivity; try discriminate
+         end.
